@@ -241,6 +241,7 @@ def schedule_part(run, rng, variants, scratch, quick):
         (v["i2i1"], v["i2i1"], v["i1i2"]),
         (v["i1i2-unpackonly"], v["i2i1-unpackonly"], None),     # declarations that differ only in their generated unpack code
         (v["i1i2-packonly"], v["i2i1-packonly"], None),         # ... only in their generated pack code
+        (v["ea1eb2-noann"], v["eb1ea2-noann"], None),          # ... only in non-ASCII characters of the field names
         (v["desc-auto-noann"], v["desc-plain-noann"], None),    # ... only in the calls around the per-field code (descriptor hooks)
         (v["desc-plain-noann"], v["desc-plain-noann"], v["desc-auto-noann"]),
         (v["i1i2"], v["i1i2"], "fresh-directory"),
